@@ -3,6 +3,7 @@
 import warnings
 from typing import Any, Dict, Union
 
+import numpy as np
 import pandas as pd
 
 from pandera import dtypes
@@ -229,10 +230,14 @@ def _get_array_type(x):
             try:
                 inferred_type = pandas_engine.Engine.dtype(inferred_alias)
                 # the values must be representable in the inferred type,
-                # e.g. python integers beyond the range of int64 are not
-                inferred_type.try_coerce(x)
-                data_type = inferred_type
-            except (TypeError, ParserError):
+                # e.g. python integers beyond the range of int64 are not,
+                # and must keep their value, e.g. time zone aware timestamps
+                # would lose their time zone as datetime64[ns]
+                coerced = inferred_type.try_coerce(x)
+                notna = np.asarray(x.notna())
+                if np.asarray(coerced[notna] == x[notna]).all():
+                    data_type = inferred_type
+            except (TypeError, ValueError, ParserError):
                 # not every result of infer_dtype names a data type, e.g.
                 # "empty" for an array without elements: keep object
                 pass
